@@ -33,6 +33,7 @@ theorem inv_mut {s s1 : State} {t : Tid} {th th' : Thread} (h : Inv s)
     (hth : s.threads[t]? = some th) (hns : th.pc.isStopper = false)
     (e : s1.threads = s.threads ∧ s1.tlock = s.tlock ∧ s1.ver = s.ver ∧ s1.stopper = s.stopper ∧
       s1.fix = s.fix)
+    (hlk1 : ∀ x, s1.hlock = some x → x < s.threads.length)
     (hself : TPcore (proj s t) th → TPcore (proj s1 t) th')
     (hoth : ∀ u thu, u ≠ t → s.threads[u]? = some thu →
       (TPself s.ver (decide (s.hlock = some u)) s.hostUsed s.fix thu →
@@ -44,7 +45,7 @@ theorem inv_mut {s s1 : State} {t : Tid} {th th' : Thread} (h : Inv s)
   have hth1 : s1.threads[t]? = some th := by rw [e1]; exact hth
   have hnst1 : s1.stopper ≠ some t := by rw [e4]; exact hnst
   have hspc : (s1.put t th').spc = s1.spc := by rw [spc_put hth1]; simp [hnst1]
-  refine ⟨?_, ?_, ?_⟩
+  refine ⟨?_, ?_, ?_, ?_, ?_⟩
   · intro u thu hu
     by_cases hut : u = t
     · subst hut
@@ -64,20 +65,27 @@ theorem inv_mut {s s1 : State} {t : Tid} {th th' : Thread} (h : Inv s)
   · simp only [put_tlock, put_stopper, hspc]
     have : s1.spc = s.spc := by simp [State.spc, e1, e4]
     rw [this, e2, e4]; exact h.tl
+  · intro x hx; simp only [put_hlock, put_len] at hx ⊢; rw [e1]; exact hlk1 x hx
+  · intro a ha
+    simp only [put_stopper] at ha
+    rw [hspc]
+    have : s1.spc = s.spc := by simp [State.spc, e1, e4]
+    rw [this]; rw [e4] at ha; exact h.acs a ha
 
 /-- The common case: nothing but the record of `t` changes. -/
 theorem inv_mut0 {s : State} {t : Tid} {th th' : Thread} (h : Inv s)
     (hth : s.threads[t]? = some th) (hns : th.pc.isStopper = false)
     (hself : ∀ pr, TPcore pr th → TPcore pr th') : Inv (s.put t th') :=
-  inv_mut h hth hns ⟨rfl, rfl, rfl, rfl, rfl⟩ (hself _) (fun _ _ _ _ => ⟨id, id⟩)
+  inv_mut h hth hns ⟨rfl, rfl, rfl, rfl, rfl⟩ h.hlk (hself _) (fun _ _ _ _ => ⟨id, id⟩)
 
 /-- The heap lock changes hands: only `t` sees a difference. -/
 theorem inv_mut_hl {s : State} {t : Tid} {th th' : Thread} {x : Option Tid} (h : Inv s)
     (hth : s.threads[t]? = some th) (hns : th.pc.isStopper = false)
     (hx : ∀ u, u ≠ t → decide (x = some u) = decide (s.hlock = some u))
+    (hxl : ∀ y, x = some y → y < s.threads.length)
     (hself : TPcore (proj s t) th → TPcore { proj s t with hl := decide (x = some t) } th') :
     Inv ({ s with hlock := x }.put t th') := by
-  refine inv_mut h hth hns ⟨rfl, rfl, rfl, rfl, rfl⟩ hself ?_
+  refine inv_mut h hth hns ⟨rfl, rfl, rfl, rfl, rfl⟩ hxl hself ?_
   intro u thu hut hu
   refine ⟨fun hh => ?_, fun hh => ?_⟩
   · show TPself s.ver (decide (x = some u)) s.hostUsed s.fix thu
